@@ -7098,6 +7098,10 @@ class FrameGO(Frame):
         if isinstance(container, Frame):
             if not len(container.columns):
                 return
+            # validate all labels before growing, as a failure part way through would leave columns and blocks out of step
+            for label in container._columns:
+                if label in self._columns:
+                    raise KeyError(f'duplicate key append attempted: {label}')
             self._columns.extend(container.keys())
             self._blocks.extend(container._blocks)
         elif isinstance(container, Series):
